@@ -837,7 +837,9 @@ func (c *Ctx) composerSkeletons(rule string, handlers map[string]*ssa.Function) 
 							}
 						case *ssa.Call:
 							if g := y.Call.StaticCallee(); g != nil && len(y.Call.Args) == 2 && boolResult(g) {
-								if isM, _ := c.isMembershipFn(g); isM {
+								if si, isMap := c.isMapMembershipFn(g); isMap {
+									set = y.Call.Args[si]
+								} else if isM, _ := c.isMembershipFn(g); isM {
 									set = y.Call.Args[0]
 								}
 							}
